@@ -160,6 +160,72 @@ func nonEmptySubsets(ms []string) [][]string {
 	return out
 }
 
+// nameTemplates substitutes every ordered selection of distinct names for the slots X, Y, Z of each shape.
+func nameTemplates(shapes []string, names []string) []string {
+	var out []string
+	for _, sh := range shapes {
+		k := 0
+		for _, slot := range []string{"{X}", "{Y}", "{Z}"} {
+			if strings.Contains(sh, slot) {
+				k++
+			}
+		}
+		var rec func(cur []int)
+		rec = func(cur []int) {
+			if len(cur) == k {
+				t := sh
+				for i, slot := range []string{"{X}", "{Y}", "{Z}"}[:k] {
+					t = strings.Replace(t, slot, "{"+names[cur[i]]+"}", 1)
+				}
+				out = append(out, t)
+				return
+			}
+		next:
+			for i := range names {
+				for _, j := range cur {
+					if i == j {
+						continue next
+					}
+				}
+				rec(append(cur, i))
+			}
+		}
+		rec(nil)
+	}
+	return out
+}
+
+// nameDescs: one description per template (GET), under each base path; withSibling adds, for the
+// two-slot whole-segment shape, a second operation whose names are swapped at the same positions.
+func nameDescs(templates []string, bs []Desc) []Desc {
+	var out []Desc
+	for _, t := range templates {
+		for _, b := range bs {
+			out = append(out, Desc{Base: b.Base, NoBase: b.NoBase, Ops: []OpC{{Method: "GET", Template: t}}})
+		}
+	}
+	return out
+}
+
+func swappedSiblingDescs(names []string, bs []Desc) []Desc {
+	var out []Desc
+	for i, x := range names {
+		for j, y := range names {
+			if i == j {
+				continue
+			}
+			for _, b := range bs {
+				out = append(out, Desc{Base: b.Base, NoBase: b.NoBase, Ops: []OpC{
+					{Method: "GET", Template: "/s/{" + x + "}/{" + y + "}"},
+					{Method: "GET", Template: "/s/{" + y + "}/{" + x + "}/t"},
+					{Method: "POST", Template: "/s/{" + y + "}/{" + x + "}"},
+				}})
+			}
+		}
+	}
+	return out
+}
+
 type sweep struct {
 	name  string
 	via   string
@@ -225,6 +291,16 @@ func main() {
 		{"GET", "/a?x=/b"}, {"GET", "/a/x?"}, {"GET", "/?/a"}, {"POST", "/a/b?/c"}}
 	allMethods := []string{"GET", "get", "POST", "Post", "DELETE", "PUT", "HEAD", "OPTIONS", "PATCH", "gEt", "FOO"}
 
+	// placeholder-name dimension: the same template shapes under every ordered selection of names that are
+	// prefixes / suffixes / substrings of each other, differ in case only, equal a literal segment, or
+	// contain '-', '_', '.', digits
+	names := []string{"id", "idType", "Type", "a", "ab", "abc", "b", "pet-id", "pet_id", "pet.id", "id2", "ID", "s", "p", "pq"}
+	nameShapes2 := []string{"/s/{X}/{Y}", "/{X}/s/{Y}", "/s/{X}.{Y}"}
+	nameShapes3 := []string{"/s/{X}/{Y}/{Z}", "/s/{X}/{Y}.{Z}", "/s/{X}.{Y}/{Z}"}
+	nameTriples := [][]string{{"a", "ab", "abc", "b"}, {"id", "idType", "Type"}, {"p", "pq", "pet-id"}}
+	nameFam := family{long: []string{"s", "t", "v", "w", "x.y", "%2F"}, longLen: 4, full: []string{"s"}, fullLen: 1, methods: []string{"GET", "POST", "get", "HEAD"},
+		mAlpha: []string{"s", "v", "x.y"}, mLen: 3, suffixes: []string{"", "/"}, wrongLen: 1, longMeths: []string{"GET"}}
+
 	var sweeps []sweep
 	if r.Thorough() {
 		famA := family{long: longAlpha[:12], longLen: 3, full: fullAlpha, fullLen: 2, methods: []string{"GET", "POST", "get", "HEAD"},
@@ -244,6 +320,15 @@ func main() {
 				family{long: compAlpha, longLen: 3, full: compAlpha, fullLen: 1, methods: []string{"GET", "POST", "get", "HEAD"},
 					mAlpha: compAlpha, mLen: 2, suffixes: []string{"", "/"}, wrongLen: 1, longMeths: []string{"GET"}}},
 		}
+		var nt []string
+		nt = append(nt, nameTemplates(nameShapes2, names)...)
+		for _, tr := range nameTriples {
+			nt = append(nt, nameTemplates(nameShapes3, tr)...)
+		}
+		nd := nameDescs(nt, bases(""))
+		nd = append(nd, nameDescs(nameTemplates(nameShapes2[:1], names), bases("/api"))...)
+		nd = append(nd, swappedSiblingDescs(names, bases(""))...)
+		sweeps = append(sweeps, sweep{"placeholder-names", "routes", nd, nameFam})
 	} else {
 		famA := family{long: longAlpha[:10], longLen: 3, full: fullAlpha, fullLen: 2, methods: []string{"GET", "POST", "get", "HEAD"},
 			mAlpha: []string{"a", "b", "x", "x.y"}, mLen: 2, suffixes: []string{"", "/", "//", "/.", "?q=/a"}, wrongLen: 1, specials: specials, longMeths: []string{"GET"}}
@@ -258,6 +343,15 @@ func main() {
 				family{long: compAlpha, longLen: 2, full: compAlpha, fullLen: 1, methods: []string{"GET", "POST", "get", "HEAD"},
 					mAlpha: compAlpha[:8], mLen: 2, suffixes: []string{"", "/"}, wrongLen: 1, longMeths: []string{"GET"}}},
 		}
+		qnames := []string{"id", "idType", "Type", "a", "ab", "pet_id", "ID", "s"}
+		nt := nameTemplates(nameShapes2, qnames)
+		nt = append(nt, nameTemplates(nameShapes3[:1], []string{"a", "ab", "abc"})...)
+		nd := nameDescs(nt, bases(""))
+		nd = append(nd, swappedSiblingDescs(qnames[:5], bases("/api"))...)
+		qf := nameFam
+		qf.long = []string{"s", "t", "v", "x.y", "%2F"}
+		qf.mLen = 2
+		sweeps = append(sweeps, sweep{"placeholder-names", "routes", nd, qf})
 	}
 	r.Set("template_universe", universe)
 	r.Set("template_universe_methods_sweep", small)
@@ -266,6 +360,10 @@ func main() {
 	r.Set("request_methods", allMethods)
 	r.Set("template_universe_partial_segment_sweep", compU)
 	r.Set("segment_alphabet_partial_segment_sweep", compAlpha)
+	r.Set("placeholder_names", names)
+	r.Set("placeholder_name_shapes", append(append([]string{}, nameShapes2...), nameShapes3...))
+	r.Set("placeholder_name_triples", nameTriples)
+	r.Set("segment_alphabet_placeholder_names_sweep", nameFam.long)
 
 	var mu sync.Mutex
 	totals := map[string]int64{}
@@ -366,5 +464,5 @@ func main() {
 		"net/http's request parsing (http.ReadRequest, URL.EscapedPath) and net/url.PathUnescape are trusted",
 		"descriptions in which two operations of one method have the same shape are wired by the library in Go map order; one order is explored per run",
 	)
-	r.Finish("every description of the stated families (template sets x method assignment x base path) x every request line of the family for its base path (symbol sequences up to the stated length x methods x trailing decorations x right/noisy/absent/wrong base prefix); one evaluation = one request served by the real handler chain and compared with the reference dispatcher; non-trivial = a handler ran, or the answer was 405, or the oracle failed (distinct by construction: descriptions are distinct sets, request lines are de-duplicated per description)", !ownCut)
+	r.Finish("every description of the stated families (template sets x method assignment x base path; template shapes x every ordered selection of distinct placeholder names from the stated name alphabet) x every request line of the family for its base path (symbol sequences up to the stated length x methods x trailing decorations x right/noisy/absent/wrong base prefix); one evaluation = one request served by the real handler chain and compared with the reference dispatcher; non-trivial = a handler ran, or the answer was 405, or the oracle failed (distinct by construction: descriptions are distinct sets, request lines are de-duplicated per description)", !ownCut)
 }
